@@ -96,7 +96,7 @@ pub fn %s() {
     }
 }
 """ % (name, B, concrete_bytes(mask_patches, B), mod, "\n            ".join(fin)))
-                hs.append({"name": "c02::%s" % name, "group": "msm", "tier": "quick" if (mod in ("msg1074", "msg1077", "msg1127", "msg1087") and sname in ("empty", "9x8")) else "thorough",
+                hs.append({"name": "c02::%s" % name, "group": "msm", "tier": "quick" if (mod in ("msg1074", "msg1077", "msg1127", "msg1087") and sname in ("9x8",)) else "thorough",
                            "bounds": "%s: every %d-byte payload whose satellite, signal and cell masks are the concrete shape %s (%s), all row data symbolic" % (mod, B, sname, cm if cm is not None else "72 cells: refused")})
             continue
         fixed = not G.has_var(mod)
@@ -171,7 +171,8 @@ pub fn %s() {
 }
 """ % (unw, stub, name, B, pt, mod, "\n            ".join(fin)))
             heavy = mod in ("msg1004", "msg1012", "msg1003", "msg1011", "msg1002", "msg1010")
-            is_q = q and (main if not heavy else vname == "n1")
+            # measured: the legacy observables 1002-1004/1010-1012 and the 1029 text exceed 12 GB within minutes
+            is_q = q and main and not heavy and mod not in ("msg1065", "msg1029")
             hs.append({"name": "c02::%s" % name, "group": grp, "tier": "quick" if is_q else "thorough",
                        "bounds": "%s: every payload of %d bytes with %s" % (mod, B, desc)})
     gen.write_gen("c02_list.rs", "\n".join(code))
